@@ -246,6 +246,7 @@ Notation sdata := (@sdata A D).
 Notation shaped := (@shaped A D).
 Notation DTensor := (@DTensor A D).
 Notation reconstrain := (@reconstrain A D zeroA).
+Notation make_compatible := (@make_compatible A D zeroA).
 Notation sstep := (@sstep A D zeroA).
 Notation srun := (@srun A D zeroA).
 
@@ -261,7 +262,7 @@ Definition front_before_back (nd : nat) (c : cons_t) : Prop :=
 Definition satisfies (t : tensor) (c : cons_t) (strict : bool) : Prop :=
   holds t c /\ (strict = true -> front_before_back (ndim t) c).
 
-Theorem compatible_spec t c strict : constraints_compatible t c strict = true <-> satisfies t c strict.
+Theorem compatible_spec (t : tensor) c strict : constraints_compatible t c strict = true <-> satisfies t c strict.
 Proof.
   unfold constraints_compatible, satisfies.
   destruct (Z.ltb_spec (Z.of_nat (ndim t)) (constraint_dimensionality c strict)) as [Hlt|Hge].
@@ -289,7 +290,7 @@ Proof.
 Qed.
 
 (* with strict constraints distinct keys address distinct dimensions *)
-Theorem strict_distinct t c : constraints_compatible t c true = true ->
+Theorem strict_distinct (t : tensor) c : constraints_compatible t c true = true ->
   forall d1 d2, In d1 (keys c) -> In d2 (keys c) -> pyidx (ndim t) d1 = pyidx (ndim t) d2 -> d1 = d2.
 Proof.
   intros H. apply compatible_spec in H as [Hh Hs]. specialize (Hs eq_refl).
@@ -322,3 +323,261 @@ Theorem valid_sound (s : shaped) (t : tensor) : valid s = true -> sdat s = DTens
 Proof.
   intros Hv Hd Hi. apply valid_spec in Hv. rewrite Hd in *. destruct Hv as [Hv|[Hh _]]; [congruence|exact Hh].
 Qed.
+
+(* ------------------------------------------------------------------ monotonicity of "satisfies" *)
+Lemma satisfies_del (t : tensor) c d strict : satisfies t c strict -> satisfies t (dict_del c d) strict.
+Proof.
+  intros [Hh Hs]. split.
+  - intros d' s' H. apply Hh. eapply in_dict_del; eauto.
+  - intros E d1 d2 H1 H2. apply (Hs E); eapply keys_dict_del_incl; eauto.
+Qed.
+
+Lemma make_compatible_shape (t : tensor) dim sz :
+  tshape (make_compatible t dim sz) =
+  if nth (pyidx (ndim t) dim) (tshape t) 0 =? sz then tshape t else upd (tshape t) (pyidx (ndim t) dim) sz.
+Proof.
+  unfold make_compatible.
+  destruct (Nat.ltb_spec sz (nth (pyidx (ndim t) dim) (tshape t) 0));
+    destruct (Nat.ltb_spec (nth (pyidx (ndim t) dim) (tshape t) 0) sz);
+    destruct (Nat.eqb_spec (nth (pyidx (ndim t) dim) (tshape t) 0) sz); try lia; reflexivity.
+Qed.
+Lemma make_compatible_ndim (t : tensor) dim sz : ndim (make_compatible t dim sz) = ndim t.
+Proof.
+  unfold ndim. rewrite make_compatible_shape. destruct (_ =? _); [reflexivity|apply upd_length'].
+Qed.
+Lemma make_compatible_dt (t : tensor) dim sz : tdt (make_compatible t dim sz) = tdt t.
+Proof. unfold make_compatible. repeat destruct (_ <? _); reflexivity. Qed.
+Lemma make_compatible_nth (t : tensor) dim sz : pyidx (ndim t) dim < ndim t ->
+  nth (pyidx (ndim t) dim) (tshape (make_compatible t dim sz)) 0 = sz /\
+  forall j, j <> pyidx (ndim t) dim -> nth j (tshape (make_compatible t dim sz)) 0 = nth j (tshape t) 0.
+Proof.
+  intros Hk. rewrite make_compatible_shape.
+  destruct (Nat.eqb_spec (nth (pyidx (ndim t) dim) (tshape t) 0) sz) as [E|E]; [auto|].
+  split; [apply nth_upd_eq; exact Hk|intros j Hj; apply nth_upd_neq; exact Hj].
+Qed.
+
+(* the altered tensor satisfies the altered constraints *)
+Lemma satisfies_edit (t : tensor) c d sz strict : NoDup (keys c) -> In d (keys c) ->
+  satisfies t c strict -> pairwise_consistent (ndim t) (dict_set c d sz) ->
+  satisfies (make_compatible t d sz) (dict_set c d sz) strict.
+Proof.
+  intros Hnd Hin [Hh Hs] Hp. apply in_keys in Hin as (s0 & Hin0).
+  destruct (Hh _ _ Hin0) as [Rd _].
+  pose proof (make_compatible_nth t d sz (pyidx_lt _ _ Rd)) as [Hk Hother].
+  split.
+  - intros d' s' H'. rewrite make_compatible_ndim.
+    pose proof H' as H''. apply (proj1 (in_dict_set c d sz d' s' Hnd)) in H'' as [[-> ->]|[Hne Hold]].
+    + split; [exact Rd|exact Hk].
+    + destruct (Hh _ _ Hold) as [R' V']. split; [exact R'|].
+      destruct (Nat.eq_dec (pyidx (ndim t) d') (pyidx (ndim t) d)) as [E|E].
+      * rewrite E, Hk. symmetry. apply (Hp d' s' d sz H'); [|exact E].
+        apply (proj2 (in_dict_set c d sz d sz Hnd)). left; auto.
+      * rewrite Hother by exact E. exact V'.
+  - intros E. rewrite make_compatible_ndim. intros d1 d2 H1 H2.
+    rewrite keys_dict_set_in in H1, H2 by (apply in_keys; eauto). apply (Hs E); assumption.
+Qed.
+
+(* ------------------------------------------------------------------ reconstrain, branch by branch *)
+Definition wfc (s : shaped) : Prop := NoDup (keys (scons s)).
+
+(* removing a constraint never alters the data, whatever the state *)
+Theorem remove_never_alters_data (s : shaped) d : sdat (fst (reconstrain s d None)) = sdat s.
+Proof.
+  unfold reconstrain. cbn. destruct (lookup (scons s) d); [|reflexivity].
+  destruct (ignore_or_compatible _ _ _); reflexivity.
+Qed.
+Theorem remove_unconstrained (s : shaped) d : lookup (scons s) d = None -> reconstrain s d None = (s, Some XValue).
+Proof. intros H. unfold reconstrain. cbn. rewrite H. reflexivity. Qed.
+Theorem remove_spec (s : shaped) d sz : wfc s -> lookup (scons s) d = Some sz ->
+  fst (reconstrain s d None) = set_cons s (dict_del (scons s) d) /\
+  lookup (scons (fst (reconstrain s d None))) d = None /\
+  (forall d' s', d' <> d -> In (d', s') (scons s) -> In (d', s') (scons (fst (reconstrain s d None)))) /\
+  (valid s = true -> snd (reconstrain s d None) = None).
+Proof.
+  intros Hw Hl. unfold reconstrain. cbn. rewrite Hl.
+  assert (E : fst (if ignore_or_compatible (sdat s) (dict_del (scons s) d) (sstrict s)
+                   then (set_cons s (dict_del (scons s) d), @None xerr)
+                   else (set_cons s (dict_del (scons s) d), Some XRuntime)) = set_cons s (dict_del (scons s) d))
+    by (destruct (ignore_or_compatible _ _ _); reflexivity).
+  rewrite E. split; [reflexivity|]. cbn [scons set_cons]. split; [|split].
+  - apply lookup_none. apply notin_dict_del. exact Hw.
+  - intros d' s' Hne Hin. apply in_dict_del_iff; auto.
+  - intros Hv. apply valid_spec in Hv. unfold ignore_or_compatible.
+    destruct (sdat s) as [| |t] eqn:Ed; [reflexivity|reflexivity|].
+    destruct Hv as [Hv|Hv]; [rewrite Hv; reflexivity|].
+    apply (satisfies_del t _ d) in Hv. apply compatible_spec in Hv. rewrite Hv, orb_true_r. reflexivity.
+Qed.
+
+(* every refused add / edit (and every refused call with a bad size) leaves the state untouched; the
+   only exception raised after a state change is the removal from an already invalid tensor *)
+Theorem refused_noeffect (s : shaped) d z s' e : reconstrain s d z = (s', Some e) ->
+  s' = s \/ (z = None /\ valid s = false /\ s' = set_cons s (dict_del (scons s) d)).
+Proof.
+  unfold reconstrain. destruct z as [z|]; cbn [option_map].
+  - destruct (z <? 0)%Z; [intros H; injection H as <- _; auto|].
+    destruct (lookup (scons s) d); destruct (sdat s) as [| |t]; cbn [ignore];
+      repeat match goal with |- context [if ?b then _ else _] => destruct b end;
+      intros H; try discriminate; injection H as <- _; auto.
+  - destruct (lookup (scons s) d) as [sz|] eqn:El; [|intros H; injection H as <- _; auto].
+    destruct (ignore_or_compatible (sdat s) (dict_del (scons s) d) (sstrict s)) eqn:Ei; intros H; [discriminate|].
+    injection H as <- _. right. split; [reflexivity|]. split; [|reflexivity].
+    destruct (valid s) eqn:Ev; [|reflexivity]. exfalso.
+    apply valid_spec in Ev. unfold ignore_or_compatible in Ei. destruct (sdat s) as [| |t]; try discriminate.
+    destruct Ev as [Ev|Ev]; [rewrite Ev in Ei; discriminate|].
+    apply (satisfies_del t _ d) in Ev. apply compatible_spec in Ev. rewrite Ev, orb_true_r in Ei. discriminate.
+Qed.
+
+(* adding a constraint the tensor does not satisfy is refused, without side effects *)
+Theorem add_incompatible_refused_noeffect (s : shaped) (t : tensor) d z :
+  lookup (scons s) d = None -> (0 <= z)%Z -> sdat s = DTensor t -> ignore (sdat s) = false ->
+  ~ satisfies t (dict_set (scons s) d (Z.to_nat z)) (sstrict s) ->
+  exists e, reconstrain s d (Some z) = (s, Some e).
+Proof.
+  intros Hl Hz Hd Hi Hn. unfold reconstrain. cbn [option_map]. replace (z <? 0)%Z with false by lia.
+  rewrite Hl. rewrite Hd in *. rewrite Hi.
+  destruct (constraints_compatible t (scons s) (sstrict s)); [|eauto].
+  destruct (constraints_compatible t (dict_set (scons s) d (Z.to_nat z)) (sstrict s)) eqn:E; [|eauto].
+  exfalso. apply Hn. apply compatible_spec. exact E.
+Qed.
+(* ... and adding one it does satisfy (or adding to uninitialised storage) is accepted, data untouched *)
+Theorem add_accepted (s : shaped) d z :
+  lookup (scons s) d = None -> (0 <= z)%Z -> valid s = true ->
+  match sdat s with
+  | Shaped.DTensor t => ignore (sdat s) = true \/ satisfies t (dict_set (scons s) d (Z.to_nat z)) (sstrict s)
+  | _ => True
+  end ->
+  reconstrain s d (Some z) = (set_cons s (dict_set (scons s) d (Z.to_nat z)), None).
+Proof.
+  intros Hl Hz Hv Hn. unfold reconstrain. cbn [option_map]. replace (z <? 0)%Z with false by lia. rewrite Hl.
+  apply valid_spec in Hv. destruct (sdat s) as [| |t] eqn:Ed; [reflexivity|reflexivity|].
+  destruct (ignore (DTensor t)) eqn:Ei; [reflexivity|].
+  destruct Hv as [Hv|Hv]; [congruence|]. destruct Hn as [Hn|Hn]; [congruence|].
+  apply compatible_spec in Hv, Hn. rewrite Hv, Hn. reflexivity.
+Qed.
+
+(* altering a constraint of an initialised, valid tensor: accepted exactly when the new size does not
+   contradict another constraint on the same dimension; then the constraint is updated and the data
+   is left alone (already of that size) or resized along that dimension *)
+Theorem edit_spec (s : shaped) (t : tensor) d z s0 : wfc s ->
+  lookup (scons s) d = Some s0 -> (0 <= z)%Z -> sdat s = DTensor t -> ignore (sdat s) = false -> valid s = true ->
+  let sz := Z.to_nat z in
+  let c' := dict_set (scons s) d sz in
+  (pairwise_consistent (ndim t) c' ->
+     reconstrain s d (Some z) =
+       (mkShaped (sstrict s) (slive s) (sparam s) c' (DTensor (make_compatible t d sz)), None) /\
+     satisfies (make_compatible t d sz) c' (sstrict s)) /\
+  (~ pairwise_consistent (ndim t) c' -> reconstrain s d (Some z) = (s, Some XRuntime)).
+Proof.
+  intros Hw Hl Hz Hd Hi Hv sz c'. unfold reconstrain. cbn [option_map]. replace (z <? 0)%Z with false by lia.
+  rewrite Hl. apply valid_spec in Hv. rewrite Hd in *. rewrite Hi.
+  destruct Hv as [Hv|Hv]; [congruence|]. pose proof Hv as Hc. apply compatible_spec in Hc.
+  assert (Hdim : (constraint_dimensionality (scons s) (sstrict s) <=? Z.of_nat (ndim t))%Z = true).
+  { unfold constraints_compatible in Hc. destruct (Z.ltb_spec (Z.of_nat (ndim t)) (constraint_dimensionality (scons s) (sstrict s))); [discriminate|lia]. }
+  rewrite Hdim. cbn [andb]. fold sz. fold c'.
+  assert (Hin : In d (keys (scons s))) by (eapply lookup_some_key; eauto).
+  assert (Hr : in_range (ndim t) c').
+  { intros d' s' H'. apply pyidx_lt. apply (proj1 (in_dict_set _ _ _ _ _ Hw)) in H' as [[-> _]|[_ H']].
+    - apply in_keys in Hin as (s1 & Hin). apply (proj1 Hv _ _ Hin).
+    - apply (proj1 Hv _ _ H'). }
+  pose proof (constraints_consistent_spec c' (ndim t) Hr) as Hcs.
+  split.
+  - intros Hp. rewrite (proj2 Hcs Hp).
+    pose proof (satisfies_edit t (scons s) d sz (sstrict s) Hw Hin Hv Hp) as Hsat. fold c' in Hsat.
+    split; [|exact Hsat].
+    destruct (constraints_compatible t c' (sstrict s)) eqn:Ec; [|reflexivity].
+    (* already compatible: make_compatible is the identity *)
+    apply compatible_spec in Ec. assert (Hsz : nth (pyidx (ndim t) d) (tshape t) 0 = sz).
+    { apply (proj1 Ec d sz). apply (proj2 (in_dict_set _ _ _ _ _ Hw)). left; auto. }
+    unfold set_cons. rewrite Hd. do 3 f_equal. unfold make_compatible. rewrite Hsz, Nat.ltb_irrefl. reflexivity.
+  - intros Hp. destruct (constraints_consistent c' (ndim t)) eqn:Ec; [|reflexivity].
+    exfalso. apply Hp. apply Hcs. reflexivity.
+Qed.
+
+(* ------------------------------------------------------------------ validity is invariant *)
+Lemma valid_set_cons_ignored (s : shaped) c : ignore (sdat s) = true -> valid (set_cons s c) = true.
+Proof.
+  unfold valid, ignore_or_compatible. cbn [sdat set_cons]. destruct (sdat s); auto. intros ->. reflexivity.
+Qed.
+
+Theorem reconstrain_inv (s : shaped) d z : wfc s -> valid s = true ->
+  let s' := fst (reconstrain s d z) in
+  wfc s' /\ valid s' = true /\ sstrict s' = sstrict s /\ slive s' = slive s /\ sparam s' = sparam s.
+Proof.
+  intros Hw Hv. cbv zeta.
+  destruct (reconstrain s d z) as [s' e] eqn:Er. cbn [fst].
+  destruct e as [e|].
+  { apply refused_noeffect in Er as [->|(_ & Hf & _)]; [auto|congruence]. }
+  unfold reconstrain in Er.
+  destruct (match z with Some z0 => (z0 <? 0)%Z | None => false end) eqn:Ez; [discriminate|].
+  destruct (lookup (scons s) d) as [s0|] eqn:El; destruct z as [z|]; cbn [option_map] in Er.
+  - (* alter *)
+    assert (Hin : In d (keys (scons s))) by (eapply lookup_some_key; eauto).
+    destruct (sdat s) as [| |t] eqn:Ed.
+    + injection Er as <-. repeat split; auto. apply nodup_dict_set; exact Hw.
+      apply valid_set_cons_ignored. rewrite Ed. reflexivity.
+    + injection Er as <-. repeat split; auto. apply nodup_dict_set; exact Hw.
+      apply valid_set_cons_ignored. rewrite Ed. reflexivity.
+    + destruct (ignore (DTensor t)) eqn:Ei.
+      * injection Er as <-. repeat split; auto. apply nodup_dict_set; exact Hw.
+        apply valid_set_cons_ignored. rewrite Ed. exact Ei.
+      * destruct ((constraint_dimensionality (scons s) (sstrict s) <=? Z.of_nat (ndim t))%Z
+                  && constraints_consistent (dict_set (scons s) d (Z.to_nat z)) (ndim t)) eqn:Eg; [|discriminate].
+        apply andb_true_iff in Eg as [Eg1 Eg2].
+        apply valid_spec in Hv. rewrite Ed in Hv. destruct Hv as [Hv|Hv]; [cbn in Ei, Hv; congruence|].
+        destruct (constraints_compatible t (dict_set (scons s) d (Z.to_nat z)) (sstrict s)) eqn:Ec; injection Er as <-.
+        -- repeat split; auto. apply nodup_dict_set; exact Hw.
+           unfold valid, ignore_or_compatible. cbn [sdat set_cons scons sstrict]. rewrite Ed, Ec. apply orb_true_r.
+        -- repeat split; auto. unfold wfc. cbn [scons]. apply nodup_dict_set; exact Hw.
+           apply valid_spec. cbn [sdat scons sstrict]. right.
+           apply satisfies_edit; auto.
+           apply constraints_consistent_spec; [|exact Eg2].
+           intros d' s' H'. apply pyidx_lt. apply (proj1 (in_dict_set _ _ _ _ _ Hw)) in H' as [[-> _]|[_ H']].
+           ++ apply in_keys in Hin as (s1 & Hin). apply (proj1 Hv _ _ Hin).
+           ++ apply (proj1 Hv _ _ H').
+  - (* remove *)
+    destruct (ignore_or_compatible (sdat s) (dict_del (scons s) d) (sstrict s)) eqn:Ei; [|discriminate].
+    injection Er as <-. repeat split; auto. apply nodup_dict_del; exact Hw.
+  - (* create *)
+    destruct (sdat s) as [| |t] eqn:Ed.
+    + injection Er as <-. repeat split; auto. apply nodup_dict_set; exact Hw.
+      apply valid_set_cons_ignored. rewrite Ed. reflexivity.
+    + injection Er as <-. repeat split; auto. apply nodup_dict_set; exact Hw.
+      apply valid_set_cons_ignored. rewrite Ed. reflexivity.
+    + destruct (ignore (DTensor t)) eqn:Ei.
+      * injection Er as <-. repeat split; auto. apply nodup_dict_set; exact Hw.
+        apply valid_set_cons_ignored. rewrite Ed. exact Ei.
+      * destruct (constraints_compatible t (scons s) (sstrict s)); [|discriminate].
+        destruct (constraints_compatible t (dict_set (scons s) d (Z.to_nat z)) (sstrict s)) eqn:Ec; [|discriminate].
+        injection Er as <-. repeat split; auto. apply nodup_dict_set; exact Hw.
+        unfold valid, ignore_or_compatible. cbn [sdat set_cons scons sstrict]. rewrite Ed, Ec. apply orb_true_r.
+  - discriminate.
+Qed.
+
+(* value assignment keeps validity when the attribute is live (assignments are tested) *)
+Theorem set_value_inv (s : shaped) x : wfc s -> valid s = true -> slive s = true ->
+  let s' := fst (set_value s x) in
+  wfc s' /\ valid s' = true /\ sstrict s' = sstrict s /\ slive s' = slive s /\ sparam s' = sparam s.
+Proof.
+  intros Hw Hv Hl. unfold set_value. rewrite Hl.
+  destruct (sparam s && _); cbn [fst]; [auto|].
+  destruct (ignore_or_compatible x (scons s) (sstrict s)) eqn:E; cbn [fst]; [|auto].
+  repeat split; auto.
+Qed.
+
+(* constraint bookkeeping stays consistent over arbitrary sequences of add / edit / remove operations
+   (successful or refused) - and of assignments too when the attribute is live *)
+Definition is_recon (o : @sop A D) : Prop := match o with SRecon _ _ => True | _ => False end.
+
+Theorem reconstrain_sequence_consistent : forall ops (s : shaped),
+  wfc s -> valid s = true -> (slive s = true \/ Forall is_recon ops) ->
+  wfc (srun s ops) /\ valid (srun s ops) = true.
+Proof.
+  induction ops as [|o ops IH]; intros s Hw Hv Hl; cbn [Shaped.srun]; [auto|].
+  destruct o as [d z|x]; cbn [Shaped.sstep].
+  - destruct (reconstrain_inv s d z Hw Hv) as (H1 & H2 & _ & H4 & _). apply IH; auto.
+    destruct Hl as [Hl|Hl]; [left; congruence|right; inversion Hl; auto].
+  - destruct Hl as [Hl|Hl]; [|inversion Hl as [|? ? Hbad]; contradiction].
+    destruct (set_value_inv s x Hw Hv Hl) as (H1 & H2 & _ & H4 & _). apply IH; auto. left; congruence.
+Qed.
+
+End ShapedProofs.
